@@ -24,3 +24,28 @@ package op
 //@   loop 1 `for i := 0; i < len(line)-1; i++`
 //@     invariant [sum] 0 <= i && (len(line) >= 1 ? i <= len(line) - 1 : i == 0) && l == lenTo(line, i)
 //@     decreases len(line) - i
+
+// ---- used by package route (C19) ----
+
+//@ func dot
+//@   inline
+//@ func norm
+//@   inline
+//@ func pointSubtract
+//@   inline
+//@ func d
+//@   inline
+
+//@ func Distance
+//@   prop C19
+//@   mode real
+//@   panics [only_points] typeof(a) != geom.Point || typeof(b) != geom.Point
+//@   ensures [euclid] result == sqrt((a.(geom.Point).X - b.(geom.Point).X) * (a.(geom.Point).X - b.(geom.Point).X) + (a.(geom.Point).Y - b.(geom.Point).Y) * (a.(geom.Point).Y - b.(geom.Point).Y))
+//@   ensures [nonneg] result >= 0
+//@   modifies nothing
+
+//@ func Length
+//@   prop C19
+//@   mode real
+//@   ensures [linestring] typeof(g) == geom.LineString ==> result == (len(g.(geom.LineString)) == 0 ? 0 : lenTo(g.(geom.LineString), len(g.(geom.LineString)) - 1))
+//@   modifies nothing
